@@ -1,32 +1,32 @@
 (* C13 -- edits keep derived views coherent; transactions atomic; copies independent.
-   Statements only; proofs in Proofs.Cache{Wf,Copy,Coh,World,Theorems,Examples}.  Model: Model.Cache (a heap of bond objects, live
+   Statements only; proofs in Proofs.Cache{Wf,Copy,Coh,World,Union,Theorems,Usable,Examples}.  Model: Model.Cache (a heap of bond objects, live
    molecules with atoms, adjacency of bond references, cache = list of (key, snapshot of the view it was computed from),
    _changed, _backup).  W = the world invariant: every live molecule and every transaction backup is well formed and
    cache-coherent, and no bond object belongs to two of them.  ops_ok = the contract of a history: attribute setters only
-   inside a transaction; union is not covered yet (hence _partial). *)
+   inside a transaction.  transaction_atomic is _partial: the block may not contain union, nested enter/exit or a swap. *)
 From Coq Require Import ZArith List Bool.
 From Model Require Import PyBase Cache.
-From Proofs Require Import CacheProofs CacheWf CacheCopy CacheCoh CacheWorld CacheTheorems CacheUsable CacheExamples.
+From Proofs Require Import CacheProofs CacheWf CacheCopy CacheCoh CacheWorld CacheUnion CacheTheorems CacheUsable CacheExamples.
 Import ListNotations.
 Open Scope Z_scope.
 
-(* the invariant holds in the empty world and is kept by every operation but union, for all histories *)
+(* the invariant holds in the empty world and is kept by every operation (union in place and copying included), for all histories *)
 Theorem C13_invariant_initial : W empty_state.
 Proof. exact W_empty. Qed.
 Print Assumptions C13_invariant_initial.
 
-Theorem C13_invariant_step_partial : forall s p, W s -> op_ok s p -> W (fst (step s p)).
+Theorem C13_invariant_step : forall s p, W s -> op_ok s p -> W (fst (step s p)).
 Proof. exact step_W. Qed.
-Print Assumptions C13_invariant_step_partial.
+Print Assumptions C13_invariant_step.
 
-Theorem C13_invariant_run_partial : forall ops s, W s -> ops_ok s ops -> W (fold_left (fun s p => fst (step s p)) ops s).
+Theorem C13_invariant_run : forall ops s, W s -> ops_ok s ops -> W (fold_left (fun s p => fst (step s p)) ops s).
 Proof. exact run_W. Qed.
-Print Assumptions C13_invariant_run_partial.
+Print Assumptions C13_invariant_run.
 
 (* every cached entry of every live molecule outside a transaction equals derive k of the CURRENT molecule, for any derive
    function that depends on what the key is computed from (ring family: non-special connectivity; components: connectivity;
    anything else: the whole view); entries of the ring family / components are current even inside a transaction *)
-Theorem C13_cache_coherent_partial :
+Theorem C13_cache_coherent :
   forall (value : Type) (derive : key -> view -> value),
   (forall k a b, equiv_for k a b -> derive k a = derive k b) ->
   forall ops s, W s -> ops_ok s ops ->
@@ -35,25 +35,25 @@ Theorem C13_cache_coherent_partial :
     (o_backup o = None ->
      forall k snap, cget (o_cache o) k = Some snap -> derive k snap = derive k (view_of (s_heap (run ops s)) o)).
 Proof. exact cache_coherent. Qed.
-Print Assumptions C13_cache_coherent_partial.
+Print Assumptions C13_cache_coherent.
 
 (* the adjacency stays symmetric and aliased (both directions hold the same bond object), loop free, over exactly the atoms,
    every reference allocated; _changed names existing atoms only: for live molecules and backups *)
-Theorem C13_adjacency_symmetric_aliased_partial : forall ops s, W s -> ops_ok s ops ->
+Theorem C13_adjacency_symmetric_aliased : forall ops s, W s -> ops_ok s ops ->
   forall o, In o (units (run ops s)) ->
     keys (o_adj o) = keys (o_atoms o) /\ NoDup (keys (o_atoms o)) /\
     (forall n m r, slot_of o n m = Some r -> slot_of o m n = Some r /\ n <> m /\ In m (keys (o_atoms o)) /\
                                              exists c, hget (s_heap (run ops s)) r = Some c) /\
     (forall l, o_changed o = Some l -> forall x, In x l -> In x (keys (o_atoms o))).
 Proof. exact adjacency_symmetric_aliased. Qed.
-Print Assumptions C13_adjacency_symmetric_aliased_partial.
+Print Assumptions C13_adjacency_symmetric_aliased.
 
-(* copies, substructures, backups: no bond object shared between two of the live units *)
-Theorem C13_copy_separate_partial : forall ops s, W s -> ops_ok s ops ->
+(* copies, substructures, unions, backups: no bond object shared between two of the live units *)
+Theorem C13_copy_separate : forall ops s, W s -> ops_ok s ops ->
   forall l1 a l2, units (run ops s) = l1 ++ a :: l2 -> forall b, In b (l1 ++ l2) ->
   forall r, In r (refs_of_adj (o_adj a)) -> ~ In r (refs_of_adj (o_adj b)).
 Proof. exact copy_separate. Qed.
-Print Assumptions C13_copy_separate_partial.
+Print Assumptions C13_copy_separate.
 
 (* copy(): same view as the source, own bond objects, _changed copied, _backup None, empty cache *)
 Theorem C13_copy_independent : forall s, W s -> snd (step s OCopy) = None ->
@@ -135,3 +135,11 @@ Theorem C13_transaction_example :
   trace [OExitExn; OAddAtom nitrogen None; OAddBond 3 4 1; ODelAtom 1] (run txn_body (fst (step s OEnter))) = [None; None; None; None].
 Proof. exact transaction_example. Qed.
 Print Assumptions C13_transaction_example.
+
+Theorem C13_union_example :
+  ops_ok empty_state union_history /\ trace union_history empty_state = repeat None 13 /\
+  (let s := run union_history empty_state in
+   keys (o_atoms (s_cur s)) = [1; 2; 3; 4; 5; 6] /\ List.length (s_others s) = 2%nat /\
+   match s_others s with u :: _ => keys (o_atoms u) = [1; 2; 3; 4; 5; 6; 7; 8; 9] | [] => False end).
+Proof. exact union_example. Qed.
+Print Assumptions C13_union_example.
